@@ -507,6 +507,10 @@ class Gen:
         if r.random() < 0.08: c['ba'] = bytearray(self.rbytes(1, 6))
         if r.random() < 0.5:       # a dict has an insertion order; the cache's meaning must not depend on it
             items = list(c.items()); r.shuffle(items); c = dict(items)
+        # a sigfield the embedder holds as a mutable bytearray (valid: the message is built by concatenation) -- it must come back unchanged
+        for k_ in ('sigfield1', 'sigfield2', 'sigfield8'):
+            if k_ in c and type(c[k_]) is bytes and r.random() < 0.07:
+                c[k_] = bytearray(c[k_])
         if r.random() < 0.03: c['timestamp'] = 'notint'
         if r.random() < 0.03: c['sigfield1'] = 5
         return c
